@@ -60,6 +60,7 @@ def check(ctx):
             ctx.guard("C18 generate_changing_data", f"{kind}/{cps}", lambda: check_generator(ctx, "generate_changing_data", kind, cps))
         for an in ("list", "tuple"):
             ctx.guard("C18 generate_anomalous_data", f"{kind}/{an}", lambda: check_generator(ctx, "generate_anomalous_data", kind, an))
+    ctx.guard("C18.d GUARDS", "no-anomalies", lambda: check_no_anomalies(ctx))
     ctx.guard("C18.d GUARDS", "anomaly-pair-length", lambda: check_pair_length(ctx))
     ctx.guard("C18.f ALTERNATING", "generate_alternating_data", lambda: check_alternating(ctx))
     ctx.guard("C18.g LINSPACE-ROWS", "add_linspace_outliers", lambda: check_linspace(ctx))
@@ -242,6 +243,41 @@ def check_generator(ctx, fname, kind, pos):
     for k, p in enumerate(rets):
         check_return_path(ctx, ex, f, fname, key, k, p, info)
     check_guard_exact(ctx, f, fname, key, paths, info)
+
+
+def check_no_anomalies(ctx):
+    """An EMPTY list of anomalies is a list of anomaly positions too (anomaly-free data): with the default (scalar) mean and
+    variance the generator returns the n x 1 standard-normal frame - it does not raise, and in particular not IndexError
+    from reading the number of columns off a list that was replicated zero times (F-32)."""
+    P = ctx.P
+    fname = "generate_anomalous_data"
+    f = P.func(f"{MOD}.{fname}")
+    for kind in ("number", "default"):
+        ex = new_executor(ctx, max_paths=100)
+
+        def thunk(ex, kind=kind):
+            n = Num(N, (), "int", pytype="number")
+            rs = Num(sym("random_state"), (), "int", pytype="number")
+            ex.list_counter += 1
+            an = ListV([], lid=ex.list_counter)
+            kw = {"n": n, "anomalies": an, "random_state": rs}
+            if kind == "number":
+                kw["means"] = Num(sym("mean0"), (), "float", pytype="number")
+                kw["variances"] = Num(sym("var0"), (), "float", pytype="number")
+            return ex.call_function(f, [], kw, None, None)
+
+        paths = run(ctx, ex, thunk)
+        key = f"{fname}[{kind}/empty-list]"
+        bad = [p for p in paths if p.outcome != "return"]
+        loc = f.loc(bad[0].exc.node) if bad and bad[0].exc is not None and bad[0].exc.node is not None else f.loc()
+        ctx.check(bool(paths) and not bad, "C18.d GUARDS", f"{key}:runs", loc, "an empty list of anomalies (anomaly-free data) with a scalar mean and variance is generated, not rejected", found=[p.exc.exc_name if p.exc else p.outcome for p in bad][:3] or "returns on every path", expected="the n x 1 standard-normal frame")
+        for p in paths:
+            if p.outcome != "return":
+                continue
+            v = p.value
+            shp = getattr(v, "shape", None)
+            ok = shp is not None and len(shp) == 2 and nf_equal(lift(shp[0]), lift(N)) and lift(shp[1]).as_const() == 1
+            ctx.check(ok, "C18.e FRAME", f"{key}:shape", f.loc(), "anomaly-free data with scalar parameters have n rows and one column", found=repr(shp), expected="(n, 1)", nontrivial=False)
 
 
 def _draw_array(p):
@@ -684,7 +720,10 @@ def _valid_domain(fname, info):
     def count_cases(lst, nseg):
         if isinstance(lst, ListV):
             ln = app("listlen", lst.lid, 0)
-            return [eq(ln, NF.const(1)), eq(ln, nseg)]
+            # one entry for all segments, or one per segment - and at least one entry where the list decides the number
+            # of columns (the means): an empty list of means is consistent with nothing, also not with zero anomalies
+            least = [Lin.of(ln - 1)] if lst is info.get("means") else []
+            return [eq(ln, NF.const(1)), eq(ln, nseg) + least]
         return [[]]  # a single number is always accepted (used for every segment)
 
     if fname == "generate_changing_data":
